@@ -149,7 +149,7 @@ def run_async(peer, kind, base, maxrep, replies, use_fetch=False, allow_bulk=Tru
         from gufo.snmp import SnmpVersion
         from gufo.snmp.async_client import SnmpSession
         from gufo.snmp.user import Aes128Key, DesKey, KeyType, Md5Key, Sha1Key, User
-        kw = dict(timeout=0.05, max_repetitions=maxrep or 20, allow_bulk=allow_bulk)
+        kw = dict(timeout=0.3, max_repetitions=maxrep or 20, allow_bulk=allow_bulk)
         if peer.kind == "v3":
             s = peer.state
             kt = {"password": KeyType.Password, "master": KeyType.Master, "localized": KeyType.Localized}
